@@ -30,16 +30,18 @@ type Int interface {
 }
 
 type H struct {
-	ir    *fast.Interp
-	rep   *vh.Report
-	rng   *vh.Rng
-	cases *vh.Cases
-	a     *vh.Args
-	wd    *vh.Watchdog
-	idx   int
-	ncoq  map[string]int
-	quota int // Coq cases per (kind, method)
-	nscript int // container scripts run so far (fresh variable names)
+	ir      *fast.Interp
+	rep     *vh.Report
+	rng     *vh.Rng
+	cases   *vh.Cases
+	a       *vh.Args
+	wd      *vh.Watchdog
+	idx     int
+	ncoq    map[string]int
+	quota   int      // Coq cases per (kind, method)
+	nscript int      // container scripts run so far (fresh variable names)
+	ccases  []string // Coq cases for C34.ContModel
+	cquota  int
 }
 
 func (h *H) eval(src string) (v interface{}, errs string) {
@@ -789,13 +791,15 @@ func main() {
 		"called as method value T.M (the closure of cti_basic_method.go) and through an interpreted wrapper func; operands: all pairs of boundary values "+
 		"(0, +-1, min, max, +-2^k, +-2^k+-1; exhaustive 256x256 for 8-bit kinds in the thorough tier) + PRNG pairs; all shift counts 0..width+2 and 250..255; floats: "+
 		"+-0, NaN, +-Inf, max, subnormals, PRNG bit patterns compared as IEEE bits; strings incl. invalid UTF-8 and out-of-range index/slice; "+
+		"container methods of cti_method.go: random scripts (quick 24 x 14 steps per world) of Slice Slice3 Append AppendString SetIndex AddrIndex Copy CopyString Index Len Cap on []int []string []uint8 []float64 and [8]T arrays (three variables sharing arrays, spare capacity, nil slices, out-of-range operands, calls at top level and through interpreted wrapper functions), SetIndex DelIndex Index TryIndex Len on map[string]int (also nil), Send TrySend Recv TryRecv Close Len Cap on buffered chan int; after every step nil-ness, len, cap and the elements up to cap of all variables are compared with the mirrored compiled-Go state (aliasing observed), panics by class; Slice/Slice3/Append descriptors (offset, len, cap) also evaluated by Verif.C34.ContModel; "+
 		"oracle = the Go operator compiled into the harness; non-trivial = not all operands zero/empty; distinct by SHA-256 of (kind, method, operands)")
 	ir := fast.New()
 	ir.Comp.Globals.Stderr = io.Discard
 	ir.Comp.Globals.Stdout = io.Discard
-	h := &H{ir: ir, rep: rep, rng: vh.NewRng(a.Seed), a: a, ncoq: map[string]int{}, quota: 18}
+	h := &H{ir: ir, rep: rep, rng: vh.NewRng(a.Seed), a: a, ncoq: map[string]int{}, quota: 18, cquota: 600}
 	if a.Thorough() {
 		h.quota = 150
+		h.cquota = 6000
 	}
 	h.cases = vh.NewCases(a, "From Coq Require Import List NArith ZArith.\nFrom Verif Require Import Common.GoStr GoLite.Syntax GoLite.Sem C34.Model.\nAdd LoadPath \".\" as Gen.\nFrom Gen Require Import Gen_cti_basic_method.\nImport ListNotations.\nOpen Scope Z_scope.",
 		"case", "mismatches table", 450)
